@@ -6,7 +6,8 @@ CONSTANTS
   TagLists = {}
   Segs = {}
   Sizes = {0, 1, 255, 256, 65535, 65536}
-  BigSizes = {}
+  BigSizes = {16777215}
+  BigFull = FALSE
   SeqLens = {2, 3}
   Salts = {0, 1, 2, 3, 4, 5}
   SimLen = 0
